@@ -15,12 +15,12 @@ pub struct World {
     pub cwd_name: u8,    // 0 d0, 1 space, 2 unicode, 3 long, 4 very long (>512 bytes)
     pub rel: u8,         // 0 script in cwd, 1 in sub dir, 2 in parent dir
     pub file_name: u8,   // 0 a.sd, 1 space, 2 unicode, 3 no extension, 4 non-UTF-8 bytes
-    pub spelling: u8,    // 0 plain, 1 ./, 2 .//, 3 detour zz/../, 4 absolute, 5 symlinked dir, 6 symlink to file; fault spellings (set explicitly): 7 trailing slash, 8 directory, 9 symlink loop, 10 missing, 11 longer than PATH_MAX
+    pub spelling: u8,    // 0 plain, 1 ./, 2 .//, 3 detour zz/../, 4 absolute, 5 symlinked dir, 6 symlink to file, 12 `symlink/../name` with a same-named decoy in cwd; fault spellings (set explicitly): 7 trailing slash, 8 directory, 9 symlink loop, 10 missing, 11 longer than PATH_MAX
     pub argv0: u8,       // 0 exe path, 1 "seed", 2 "./odd name"
     pub env_kind: u8,    // 0 minimal, 1 typical, 2 junk
     pub locale: u8,      // 0 unset, 1 C, 2 en_US.UTF-8, 3 tr_TR.UTF-8, 4 nonsense
     pub rust_backtrace: u8, // 0 unset, 1 "0", 2 "1", 3 "full"
-    pub stdin: u8,       // 0 /dev/null, 1 closed, 2 pipe with pending data, 3 regular file
+    pub stdin: u8,       // 0 /dev/null, 1 closed, 2 pipe with pending data, 3 regular file, 4 pty
     pub stdout: u8,      // 0 file, 1 pipe, 2 /dev/null, 3 closed, 4 socket, 5 pty (raw), 6 pipe without reader (fault worlds only)
     pub stderr: u8,
     pub merged: bool,    // 2>&1 on one open file description (stdout's sink)
@@ -28,6 +28,12 @@ pub struct World {
     pub clock: u64,      // seconds reported by the simulated clock (0 = reference value)
     pub pid: u32,        // value reported by getpid (0 = reference value)
     pub clock_step_ms: u64, // simulated time passing per clock read (0 = 1 ms); large = clock jumps
+    pub env_bytes: u8,   // 0 none, 1 value not UTF-8, 2 name not UTF-8, 3 LANG/LC_ALL not UTF-8, 4 entry without '=', 5 empty name, 6 several of these
+    pub sig: u8,         // inherited signal state: 0 as the simulator (SIGPIPE ignored), 1 SIGPIPE default, 2 INT/TERM/HUP/PIPE/QUIT ignored, 3 all blockable signals blocked
+    pub umask: u8,       // 0 022, 1 000, 2 077, 3 777
+    pub fds: u8,         // 0 none, 1 fds 3..19 open on /dev/null, 2 fds 3..99 open
+    pub script_mode: u8, // 0 0644 now, 1 0400, 2 0755, 3 0644 with mtime 1970, 4 0644 with mtime 2100
+    pub uid: u8,         // 0 as the simulator (root), 1 nobody (65534:65534)
     // directed dimensions: environment variables / relative files the program was seen asking for
     pub extra_env: Vec<(String, String)>,
     pub extra_files: Vec<(String, String)>,
@@ -36,6 +42,7 @@ pub struct World {
 pub const DIMS: &[&str] = &[
     "rand", "heap_pad", "env_pad", "stack", "malloc_tun", "cwd_name", "rel", "file_name", "spelling", "argv0",
     "env_kind", "locale", "rust_backtrace", "stdin", "stdout", "stderr", "merged", "decoys", "clock", "pid", "extra_env", "extra_files",
+    "env_bytes", "sig", "umask", "fds", "script_mode", "uid",
 ];
 
 impl World {
@@ -62,6 +69,12 @@ impl World {
             clock: 0,
             pid: 0,
             clock_step_ms: 0,
+            env_bytes: 0,
+            sig: 0,
+            umask: 0,
+            fds: 0,
+            script_mode: 0,
+            uid: 0,
             extra_env: vec![],
             extra_files: vec![],
         }
@@ -78,12 +91,18 @@ impl World {
             "cwd_name" => self.cwd_name = 1 + rng.below(4) as u8,
             "rel" => self.rel = 1 + rng.below(2) as u8,
             "file_name" => self.file_name = 1 + rng.below(3) as u8,
-            "spelling" => self.spelling = 1 + rng.below(6) as u8,
+            "spelling" => self.spelling = [1, 2, 3, 4, 5, 6, 12][rng.usize_below(7)],
             "argv0" => self.argv0 = 1 + rng.below(2) as u8,
             "env_kind" => self.env_kind = 1 + rng.below(2) as u8,
             "locale" => self.locale = 1 + rng.below(4) as u8,
             "rust_backtrace" => self.rust_backtrace = 1 + rng.below(3) as u8,
-            "stdin" => self.stdin = 1 + rng.below(3) as u8,
+            "stdin" => self.stdin = 1 + rng.below(4) as u8,
+            "env_bytes" => self.env_bytes = 1 + rng.below(6) as u8,
+            "sig" => self.sig = 1 + rng.below(3) as u8,
+            "umask" => self.umask = 1 + rng.below(3) as u8,
+            "fds" => self.fds = 1 + rng.below(2) as u8,
+            "script_mode" => self.script_mode = 1 + rng.below(4) as u8,
+            "uid" => self.uid = 1,
             "stdout" => self.stdout = 1 + rng.below(5) as u8,
             "stderr" => self.stderr = 1 + rng.below(5) as u8,
             "merged" => self.merged = true,
@@ -123,6 +142,12 @@ impl World {
                 self.clock_step_ms = r.clock_step_ms;
             }
             "pid" => self.pid = r.pid,
+            "env_bytes" => self.env_bytes = 0,
+            "sig" => self.sig = 0,
+            "umask" => self.umask = 0,
+            "fds" => self.fds = 0,
+            "script_mode" => self.script_mode = 0,
+            "uid" => self.uid = 0,
             "extra_env" => self.extra_env = vec![],
             "extra_files" => self.extra_files = vec![],
             _ => {}
@@ -151,6 +176,12 @@ impl World {
             "decoys" => (self.decoys as u8).to_string(),
             "clock" => bucket(self.clock),
             "pid" => bucket(u64::from(self.pid)),
+            "env_bytes" => self.env_bytes.to_string(),
+            "sig" => self.sig.to_string(),
+            "umask" => self.umask.to_string(),
+            "fds" => self.fds.to_string(),
+            "script_mode" => self.script_mode.to_string(),
+            "uid" => self.uid.to_string(),
             "extra_env" => self.extra_env.len().min(3).to_string(),
             "extra_files" => self.extra_files.len().min(3).to_string(),
             _ => String::new(),
@@ -184,6 +215,11 @@ impl World {
 
     // Remove combinations that make no sense.
     pub fn normalize(&mut self) {
+        // a script readable by its owner only cannot be read by another user: not a
+        // world in which the same script "runs"
+        if self.uid != 0 && self.script_mode == 1 {
+            self.script_mode = 2;
+        }
         if self.merged {
             // 2>&1: stderr follows stdout's sink; closed/devnull lose the merge
             if self.stdout == 3 {
@@ -203,6 +239,7 @@ impl World {
             "stdin": self.stdin, "stdout": self.stdout, "stderr": self.stderr,
             "merged": self.merged, "decoys": self.decoys,
             "clock": self.clock, "pid": self.pid, "clock_step_ms": self.clock_step_ms,
+            "env_bytes": self.env_bytes, "sig": self.sig, "umask": self.umask, "fds": self.fds, "script_mode": self.script_mode, "uid": self.uid,
             "extra_env": self.extra_env.iter().map(|(k, v)| json!([k, v])).collect::<Vec<_>>(),
             "extra_files": self.extra_files.iter().map(|(k, v)| json!([k, v])).collect::<Vec<_>>(),
         })
@@ -237,6 +274,12 @@ impl World {
         w.clock = u("clock").unwrap_or(0);
         w.pid = u("pid").unwrap_or(0) as u32;
         w.clock_step_ms = u("clock_step_ms").unwrap_or(0);
+        w.env_bytes = u("env_bytes").unwrap_or(0) as u8;
+        w.sig = u("sig").unwrap_or(0) as u8;
+        w.umask = u("umask").unwrap_or(0) as u8;
+        w.fds = u("fds").unwrap_or(0) as u8;
+        w.script_mode = u("script_mode").unwrap_or(0) as u8;
+        w.uid = u("uid").unwrap_or(0) as u8;
         let pairs = |k: &str| -> Vec<(String, String)> {
             j.get(k).and_then(J::as_array).map(|a| a.iter().filter_map(|x| Some((x.get(0)?.as_str()?.to_string(), x.get(1)?.as_str()?.to_string()))).collect()).unwrap_or_default()
         };
